@@ -324,6 +324,14 @@ def tpc (P : Env Val) (s : St Val) (old : Old Val) : St Val :=
 def handlerObserve (P : Env Val) (s : St Val) : St Val :=
   tpc P (popCache P s) (popOld P s)
 
+/-- Legacy `notify` (has_traits.py:3362-3366):
+`old = self.__dict__.pop(cached_old, Undefined); if old is not Undefined: trait_property_changed(name, old)`
+— a dropped entry that held `Undefined` is not announced. -/
+def legacyNotify (P : Env Val) (s : St Val) (old : Old Val) : St Val :=
+  match old with
+  | .val v => if P.isUndef v then s else tpc P s old
+  | _ => tpc P s old
+
 /-- A sibling handler on the mutated trait that reads the property (or not). -/
 def sib (P : Env Val) (b : Bool) (s : St Val) : St Val :=
   if b then nestedRead P s else s
@@ -340,7 +348,7 @@ The legacy `pre_notify` is registered with `priority=True`
 (has_traits.py:3359-3361), i.e. it is put in front of everything. -/
 def dispatchFire (P : Env Val) (s0 : St Val) (m : Mutation) : St Val :=
   if P.legacy then
-    sib P (P.sibPost m && s0.dyn) (tpc P (sib P (P.sibPre m) (popCache P s0)) (popOld P s0))
+    sib P (P.sibPost m && s0.dyn) (legacyNotify P (sib P (P.sibPre m) (popCache P s0)) (popOld P s0))
   else
     sib P (P.sibPost m && s0.dyn) (handlerObserve P (sib P (P.sibPre m) s0))
 
